@@ -236,4 +236,97 @@ example : fedOf [(0, [1, 2]), (1, [3])] ≠ fedOf [(1, [1, 2, 3])] := by decide
 example : fedOf [(0, []), (1, [7])] ≠ fedOf [(1, [7])] := by decide
 example : fedOf [(2, [7])] ≠ fedOf [(1, [7])] := by decide
 
+/-! ### One statement: accepting the first protected frame means both ends saw the same frames -/
+
+/-- the digest of a cleartext history of frames: all-zero when nothing was exchanged -/
+def digestOf (fs : List (Nat × Bytes)) : Digest := if fs = [] then .zero else .H (fedOf fs)
+
+/-- the running (not yet frozen) send / receive transcript of `s` is the frame list `fs` -/
+def SentIs (s : Stream) (fs : List (Nat × Bytes)) : Prop :=
+  s.dig.finalSend = none ∧ s.dig.sendFed = fedOf fs ∧ s.dig.sendWritten = !fs.isEmpty
+def RecvdIs (s : Stream) (fs : List (Nat × Bytes)) : Prop :=
+  s.dig.finalRecv = none ∧ s.dig.recvFed = fedOf fs ∧ s.dig.recvWritten = !fs.isEmpty
+
+theorem fedOf_append (fs : List (Nat × Bytes)) (fl : Nat) (d : Bytes) :
+    fedOf (fs ++ [(fl, d)]) = fedOf fs ++ (hdrBytes fl d.length ++ d) := by
+  simp [fedOf, encodeRawFrame]
+
+/-- every cleartext frame sent extends the sender's transcript by exactly that frame -/
+theorem sentIs_step (s s' : Stream) (fs : List (Nat × Bytes)) (d : Bytes) (fl : Nat) (f : WireFrame)
+    (h : SentIs s fs) (hc : s.crypting = false) (hs : s.sendFrame d fl = .ok (s', f)) :
+    SentIs s' (fs ++ [(fl, d)]) := by
+  obtain ⟨h1, h2, _⟩ := h
+  obtain ⟨a, b, _, c, _⟩ := sent_frames_are_fed s s' d fl f h1 hc hs
+  exact ⟨c, by rw [a, h2, fedOf_append], by simp [b]⟩
+
+/-- every cleartext frame accepted extends the receiver's transcript by exactly that frame -/
+theorem recvdIs_step (s s' : Stream) (fs : List (Nat × Bytes)) (f : WireFrame) (p : Bytes) (fl : Nat)
+    (h : RecvdIs s fs) (hc : s.crypting = false) (hlen : f.len = f.body.wireLen) (hp : f.len = p.length)
+    (hr : s.recvFrameWithEnd f = .ok (s', p, fl)) :
+    RecvdIs s' (fs ++ [(fl, p)]) := by
+  obtain ⟨h1, h2, _⟩ := h
+  obtain ⟨a, b, _, e, c, _⟩ := received_frames_are_fed s s' f p fl h1 hc hlen hr
+  exact ⟨c, by rw [a, h2, fedOf_append, e, hp], by simp [b]⟩
+
+theorem sentIs_fs (s : Stream) (fs : List (Nat × Bytes)) (h : SentIs s fs) : s.dig.fs = digestOf fs := by
+  obtain ⟨h1, h2, h3⟩ := h
+  cases fs with
+  | nil => simp [Dig.fs, h1, h3, digestOf]
+  | cons x xs => simp [Dig.fs, h1, h2, h3, digestOf]
+
+theorem recvdIs_fr (s : Stream) (fs : List (Nat × Bytes)) (h : RecvdIs s fs) : s.dig.fr = digestOf fs := by
+  obtain ⟨h1, h2, h3⟩ := h
+  cases fs with
+  | nil => simp [Dig.fr, h1, h3, digestOf]
+  | cons x xs => simp [Dig.fr, h1, h2, h3, digestOf]
+
+/-- installing the key freezes the digests at their current value -/
+theorem setKey_keeps_digests (s : Stream) (k : Nat) (iv : IV) :
+    (s.setKey k iv).dig.fs = s.dig.fs ∧ (s.setKey k iv).dig.fr = s.dig.fr := by
+  simp [Stream.setKey, Dig.finalize, Dig.fs, Dig.fr]
+
+theorem digestOf_inj (fs gs : List (Nat × Bytes)) (hf : ∀ f ∈ fs, FrameOK f) (hg : ∀ g ∈ gs, FrameOK g)
+    (h : digestOf fs = digestOf gs) : fs = gs := by
+  unfold digestOf at h
+  by_cases a : fs = [] <;> by_cases b : gs = []
+  · rw [a, b]
+  · simp [a, b] at h
+  · simp [a, b] at h
+  · simp only [a, b, if_false, Digest.H.injEq] at h
+    exact transcript_determines_frames fs gs hf hg h
+
+/-- **accept_means_same_frames** (the property's first sentence, one statement). Let the sender have
+    SENT the cleartext frames `sS` and RECEIVED `rS` before it installed its key, and the receiver
+    have RECEIVED `rR` and SENT `sR` before it installed the same key (histories as built by
+    `sentIs_step` / `recvdIs_step` from every frame the stream code emits or accepts, empty frames
+    and every accepted end flag included). If the receiver accepts, as the first protected frame of
+    the direction, the seal the sender produced as its first protected frame, then
+    `rR = sS` and `sR = rS`: both endpoints have seen exactly the same sequence of cleartext frames
+    — number, end flags, lengths and payloads — in each direction. Contrapositive: any edit of the
+    cleartext phase (byte, flag, insertion, removal, split, merge), in either direction, makes the
+    first protected frame fail. -/
+theorem accept_means_same_frames (S0 R0 S S' R R' : Stream) (k : Nat) (ivS ivR : IV) (d p : Bytes) (fl fl' : Nat)
+    (f g : WireFrame) (sS rS rR sR : List (Nat × Bytes))
+    (hsS : SentIs S0 sS) (hrS : RecvdIs S0 rS) (hrR : RecvdIs R0 rR) (hsR : SentIs R0 sR)
+    (hS : S = S0.setKey k ivS) (hR : R = R0.setKey k ivR)
+    (hok : (∀ x ∈ sS, FrameOK x) ∧ (∀ x ∈ rS, FrameOK x) ∧ (∀ x ∈ rR, FrameOK x) ∧ (∀ x ∈ sR, FrameOK x))
+    (hsend : S.sendFrame d fl = .ok (S', f))
+    (hsame : ∃ ivo ivo' sl, f.body = .ct ivo sl ∧ g.body = .ct ivo' sl)
+    (hrecv : R.recvFrameWithEnd g = .ok (R', p, fl')) :
+    rR = sS ∧ sR = rS := by
+  have hb := transcript_binding S S' R R' k d p fl fl' f g (by simp [hS, Stream.setKey]) (by simp [hS, Stream.setKey])
+    (by simp [hS, Stream.setKey]) (by simp [hS, Stream.setKey]) hsend (by simp [hR, Stream.setKey]) (by simp [hR, Stream.setKey])
+    (by simp [hR, Stream.setKey]) (by simp [hR, Stream.setKey]) hsame hrecv
+  have kS := setKey_keeps_digests S0 k ivS
+  have kR := setKey_keeps_digests R0 k ivR
+  rw [hS, hR, kS.1, kS.2, kR.1, kR.2, sentIs_fs _ _ hsS, recvdIs_fr _ _ hrS, recvdIs_fr _ _ hrR, sentIs_fs _ _ hsR] at hb
+  exact ⟨digestOf_inj _ _ hok.2.2.1 hok.1 hb.1, digestOf_inj _ _ hok.2.2.2 hok.2.1 hb.2⟩
+
+/-- non-vacuity: a fresh stream has the empty history, and one cleartext send gives a one-frame history -/
+example : SentIs ({} : Stream) [] ∧ RecvdIs ({} : Stream) [] := by
+  refine ⟨⟨rfl, rfl, rfl⟩, ⟨rfl, rfl, rfl⟩⟩
+example : ∃ s' f, ({} : Stream).sendFrame [1, 2, 3] 1 = .ok (s', f) ∧ SentIs s' [(1, [1, 2, 3])] := by
+  refine ⟨_, _, rfl, ?_⟩
+  exact sentIs_step {} _ [] [1, 2, 3] 1 _ ⟨rfl, rfl, rfl⟩ rfl rfl
+
 end Cedar.C04
